@@ -566,6 +566,31 @@ func c20prop(ev *evid.Rec) func(rt *rapid.T) {
 			if got2 != fuState[got] {
 				rt.Fatalf("%s: %s: after the restart and one more update (%s) the stores do not hold that update applied to what the restart had loaded\n--- expected\n%s--- found\n%s", desc, where, opsDesc([]c20op{fu}), clip(fuState[got]), clip(got2))
 			}
+			// ... and the accounts the interrupted update was about can still be removed: an acknowledged deletion is a change
+			// like any other (gone after the next restart), a refused one changes nothing
+			if store == "acct" {
+				seen := map[string]bool{}
+				for _, l := range []string{ops[n-1].Login, ops[n-1].NewLogin} {
+					if l == "" || l == "admin" || seen[l] || !strings.Contains(got2, fmt.Sprintf("ACCOUNT login=%q ", l)) {
+						continue
+					}
+					seen[l] = true
+					before, _ := c20dump(dj)
+					del := c20op{Store: "acct", Op: "delete", Login: l}
+					out, _ := exec.Command(helper, dj, js(del)).CombinedOutput()
+					after, err := c20dump(dj)
+					if err != nil {
+						rt.Fatalf("%s: %s: after the restart and a deletion of %q %v\nfiles: %s", desc, where, l, err, lsDir(dj))
+					}
+					if bytes.Contains(out, []byte("ACK")) {
+						if strings.Contains(after, fmt.Sprintf("ACCOUNT login=%q ", l)) {
+							rt.Fatalf("%s: %s: after the restart the deletion of account %q was acknowledged, but the next restart loads the account again\nfiles: %s", desc, where, l, lsDir(dj))
+						}
+					} else if after != before {
+						rt.Fatalf("%s: %s: after the restart the deletion of account %q was refused (%s) but changed what a restart loads\n--- before\n%s--- after\n%s", desc, where, l, bytes.TrimSpace(out), clip(before), clip(after))
+					}
+				}
+			}
 			nt := first >= 0 && j > first && j <= lastMut
 			ev.Case(evid.Hash(desc, j, legacy), nt, "store:"+store, "op:"+ops[n-1].Op, fmt.Sprintf("in-window:%v", nt), fmt.Sprintf("legacy-account-migration:%v", legacy))
 			os.RemoveAll(dj)
